@@ -25,7 +25,9 @@ import (
 	"pgregory.net/rapid"
 
 	"wzverif/internal/foreign"
+	"wzverif/internal/gen"
 	"wzverif/internal/kit"
+	"wzverif/internal/ops"
 )
 
 func genForeignCase(t *rapid.T) Case {
@@ -33,7 +35,18 @@ func genForeignCase(t *rapid.T) Case {
 	if rapid.SampledFrom([]bool{false, true, false}).Draw(t, "math") {
 		foreign.AddMath(t, &p)
 	}
-	return Case{Foreign: &p, Cycles: rapid.SampledFrom([]int{2, 2, 3, 4}).Draw(t, "cycles"), File: rapid.IntRange(0, 3).Draw(t, "file") == 0}
+	// media numbered past one digit (image9 | image10, image99 | image100, more than 10 / 16 / 32 / 64 media parts)
+	if rapid.IntRange(0, 3).Draw(t, "numbered") == 0 {
+		foreign.AddNumberedMedia(t, &p)
+	}
+	c := Case{Foreign: &p, Cycles: rapid.SampledFrom([]int{2, 2, 3, 4}).Draw(t, "cycles"), File: rapid.IntRange(0, 3).Draw(t, "file") == 0,
+		SaveAPI: rapid.IntRange(0, 3).Draw(t, "saveapi") == 0}
+	// the opened foreign document is edited through the API before its first save (1 case in 3)
+	if rapid.IntRange(0, 2).Draw(t, "edit") == 0 {
+		im := gen.Image(t, "editimg")
+		c.ForeignEdit = &im
+	}
+	return c
 }
 
 // bodyFeatures: the feature flags that say something about the body (what the cycles have to keep stable)
@@ -94,8 +107,24 @@ func runForeign(c Case) *kit.Result {
 				return res
 			}
 		}
+		edited := false
+		if k == 1 && c.ForeignEdit != nil {
+			// an API edit of the opened foreign document: a paragraph and a picture at the end of the body
+			im := *c.ForeignEdit
+			if pe, _ := kit.Try(func() {
+				Dk.AddParagraph(" added after Open\t")
+				_, e := Dk.AddImageFromData(im.Bytes(), im.Name, ops.ImgFormats[im.Fmt], im.W, im.H, nil)
+				edited = e == nil
+			}); pe != nil {
+				res.Count("discarded:foreign-edit-panic", 1)
+				res.Label("discard:foreign-edit-panic")
+				res.Nontrivial = false
+				return res
+			}
+			res.Label("foreign:edited-after-open")
+		}
 		var bb []byte
-		pn, st = kit.Try(func() { bb, err = Dk.ToBytes() })
+		pn, st = kit.Try(func() { bb, err = saveDoc(Dk, c, dir, fmt.Sprintf("f%d", k)) })
 		if pn != nil || err != nil {
 			if k == 1 {
 				res.Count("discarded:foreign-save-failed", 1)
@@ -116,6 +145,29 @@ func runForeign(c Case) *kit.Result {
 			}
 			res.Fail("C03.RT3f", "foreign package, cycle %d: the saved package is unreadable: %v", k, oerr)
 			return res
+		}
+		if k == 1 && edited {
+			// the picture handed to the API shows exactly once in the saved document, whatever names and ids the foreign
+			// package uses for its own media (unless the package happens to hold the very same bytes)
+			key, own := blipKey(c.ForeignEdit.Bytes()), false
+			for _, m := range p.MediaParts() {
+				if blipKey(m.Data) == key {
+					own = true
+				}
+			}
+			if !own {
+				n := 0
+				for _, b := range blips(sk, false) {
+					if b == key {
+						n++
+					}
+				}
+				res.Eval("C03.RT4")
+				if n != 1 {
+					res.Fail("C03.RT4", "foreign package edited after Open: the picture added through AddImageFromData (%s) shows %d time(s) in the saved document (expected once; %d drawing(s) in all): a picture of the document resolves to another picture's bytes",
+						key, n, len(blips(sk, false)))
+				}
+			}
 		}
 		if k >= 3 {
 			// Dk-1 = open(B(k-2)) and Dk = open(B(k-1)) are both readings of the library's own output
